@@ -15,15 +15,22 @@ def run_variant(args):
     t0 = time.time()
     try:
         base = Model(root=root)
-        if rel.endswith('.py'):
+        if rel == '@refactoring':
+            overlay = battery.refactoring_overlay(base.files, old)
+            if overlay is None:
+                return (kind, prop, name, 'skipped', 'variant no longer applies to this tree', time.time() - t0)
+            text = None
+        elif rel.endswith('.py'):
             text = battery.apply(base.files, rel, old, new)
         else:
             with open(os.path.join(base.root, rel), encoding='utf-8') as f:
                 cur = f.read()
             text = cur.replace(old, new) if cur.count(old) == 1 else None
-        if text is None:
-            return (kind, prop, name, 'skipped', 'variant no longer applies to this tree', time.time() - t0)
-        m = Model(root=root, overlay={rel: text})
+        if rel != '@refactoring':
+            if text is None:
+                return (kind, prop, name, 'skipped', 'variant no longer applies to this tree', time.time() - t0)
+            overlay = {rel: text}
+        m = Model(root=root, overlay=overlay)
         mod = importlib.import_module('pmstatic.props.' + prop.lower())
         rep = Report(prop, 'quick')
         mod.run(m, rep)
@@ -60,6 +67,10 @@ def variants(prop=None, root=None):
     for (p, name, rel, old, new) in battery.MUST_STAY_SILENT:
         if prop is None or p == prop:
             out.append(('silent', p, name, rel, old, new, None, root))
+    for (name, dirname, props) in battery.REFACTORINGS:
+        for p in props:
+            if prop is None or p == prop:
+                out.append(('silent', p, name, '@refactoring', dirname, None, None, root))
     return out
 
 
